@@ -3,18 +3,20 @@
 (* Union of all codec modules: one expectation function Exp(op, a) used by *)
 (* both conformance directions, one law predicate and the bounded grids.   *)
 (***************************************************************************)
-EXTENDS Pus1, Cfdp
+EXTENDS Pus1, Cfdp, Cds
 
 Exp(op, a) == IF op \in SpOps THEN SpExp(op, a)
               ELSE IF op \in PusOps THEN PusExp(op, a)
               ELSE IF op \in Pus1Ops THEN Pus1Exp(op, a)
               ELSE IF op \in CfdpOps THEN CfdpExp(op, a)
+              ELSE IF op \in CdsOps THEN CdsExp(op, a)
               ELSE [unknown |-> op]
 
 Law(op, a) == IF op \in SpOps THEN SpLaw(op, a)
               ELSE IF op \in PusOps THEN PusLaw(op, a)
               ELSE IF op \in Pus1Ops THEN Pus1Law(op, a)
               ELSE IF op \in CfdpOps THEN CfdpLaw(op, a)
+              ELSE IF op \in CdsOps THEN CdsLaw(op, a)
               ELSE TRUE
 
 CONSTANT Tier
@@ -28,6 +30,7 @@ NParts(area) == CASE area = "cfdphdr" -> CfdpHdrNParts
                   [] area = "tc" -> TcNParts
                   [] area = "tm" -> TmNParts
                   [] area = "pus1" -> Pus1NParts
+                  [] area = "cds" -> CdsNParts
 
 GridPart(area, i) == CASE area = "cfdphdr" -> CfdpHdrGridPart(i, Tier)
                        [] area = "tlv" -> TlvGridPart(i)
@@ -38,4 +41,5 @@ GridPart(area, i) == CASE area = "cfdphdr" -> CfdpHdrGridPart(i, Tier)
                        [] area = "tc" -> TcGridPart(i)
                        [] area = "tm" -> TmGridPart(i)
                        [] area = "pus1" -> Pus1GridPart(i)
+                       [] area = "cds" -> CdsGridPart(i)
 =============================================================================
